@@ -156,3 +156,33 @@ def _(run):
             return z3.If(defused, z3.BoolVal(bool(same_url)), z3.BoolVal(d == ()))
         return z3.BoolVal(False)
     run.post(ex, outs, pre, {'defused-before-returned': post})
+
+
+# ------------------------------------------------------------------ XMLResource.open: no exit before the defuse decision
+t = Target('resources.open.every_stream_passes_the_defuse_decision', ['C13'], 'xmlschema/resources/xml_resource.py', 'XMLResource.open',
+           note='the statement contract above covers the block from `if self.is_defused():` to the end; this obligation closes the part before it: no return statement of open() '
+                '(outside the nested open_url helper) precedes that block, so every stream the method hands out went through the defuse decision - whatever the kind of source '
+                'and whatever its encoding',
+           assumes=['syntactic obligation on the real AST (no solver)'])
+
+
+@t.symbolic
+def _(run):
+    import ast
+    ex = run.exec(); fn = ex.fn
+    blocks = [s for s in fn.body if isinstance(s, ast.If) and ast.unparse(s.test) == 'self.is_defused()']
+    run.paths = 1
+    run.vc('one-top-level-defuse-decision', z3.BoolVal(True), [], z3.BoolVal(len(blocks) == 1), 'open')
+    if len(blocks) != 1: return
+    first = blocks[0].lineno
+
+    def returns(node, acc):
+        for c in ast.iter_child_nodes(node):
+            if isinstance(c, (ast.FunctionDef, ast.Lambda)): continue
+            if isinstance(c, ast.Return): acc.append(c.lineno)
+            returns(c, acc)
+        return acc
+    early = [ln for ln in returns(fn, []) if ln < first]
+    run.vc('no-return-before-the-defuse-decision', z3.BoolVal(True), [], z3.BoolVal(not early), 'open' + (f' early returns at lines {early}' if early else ''))
+    last = fn.body[-1]
+    run.vc('falls-through-to-a-single-final-return', z3.BoolVal(True), [], z3.BoolVal(isinstance(last, ast.Return) and fn.body[-2] is blocks[0]), 'open')
